@@ -48,6 +48,8 @@ type C05Case struct {
 	SVal       *SVal    `json:"sval"` // nil: malformed stream
 	Frag       C05Frag  `json:"frag"`
 	Multi      bool     `json:"multi"`
+	// a deepObject query judged against Model/DeepObject.v (harness/c05deepcoq.go); the fields above are then unused
+	Deep *C05DeepQ `json:"deep_object,omitempty"`
 }
 
 type C05Obs struct {
@@ -765,11 +767,14 @@ func init() {
 			}
 		}
 		meta := &Meta{Property: "C05", Seed: seed, Histogram: map[string]int{}, Shard: 800,
-			Rule: "every (in,style,explode) cell x {primitive, array of primitives, flat object} x leaf texts (integers incl. 0x/underscore/overflow, numbers, 12 boolean spellings, strings incl. every delimiter and the empty string) serialised by the OpenAPI table, plus absent and malformed-text streams; plus (Go side only) deepObject query parameters over object schemas of depth <= 3 with primitive, array, nested-object and array-of-objects members, their values serialised as name[a][0][b]=v next to keys of other parameters whose names extend or contain the name; non-trivial = a value was serialised or a malformed text is present; distinct by JSON of the case"}
+			Rule: "every (in,style,explode) cell x {primitive, array of primitives, flat object} x leaf texts (integers incl. 0x/underscore/overflow, numbers, 12 boolean spellings, strings incl. every delimiter and the empty string) serialised by the OpenAPI table, plus absent and malformed-text streams; plus deepObject query parameters against the model of the deepObject decoder (Model/DeepObject.v): directed + n/3 queries, half the serialisation of a value with noise keys, half hostile (conflicting keys, non-integer / negative / sparse / huge indexes, empty and unbalanced brackets, repeated keys, undeclared members with and without additionalProperties, texts of the wrong type); plus (Go side) deepObject query parameters over object schemas of depth <= 3 with primitive, array, nested-object and array-of-objects members, their values serialised as name[a][0][b]=v next to keys of other parameters whose names extend or contain the name; non-trivial = a value was serialised or a malformed text is present; distinct by JSON of the case"}
 		seen := map[string]bool{}
 		var terms []string
 		for i := range cases {
 			c := &cases[i]
+			if c.Deep != nil {
+				continue // replayed deepObject cases are handled below
+			}
 			o := runC05(c)
 			terms = append(terms, c05Coq(c, &o))
 			meta.Cases = append(meta.Cases, map[string]any{"input": c, "go": o})
@@ -809,6 +814,22 @@ func init() {
 				}
 			}
 			meta.Histogram["deepObject cases"] = nd
+			// the same kind of queries, and hostile ones, against the Coq model of the deepObject decoder
+			dr2 := NewRng(seed ^ 0xdee9c0)
+			for _, dq := range deepQDirected() {
+				dq := dq
+				cases = append(cases, C05Case{Deep: &dq})
+			}
+			for i := 0; i < n/3; i++ {
+				var dq C05DeepQ
+				if i%2 == 0 {
+					dc := deepRandom(dr2)
+					dq = deepQFrom(&dc)
+				} else {
+					dq = deepHostile(dr2)
+				}
+				cases = append(cases, C05Case{Deep: &dq})
+			}
 			if sig, detail := runCaseVariants(); sig != "" {
 				meta.GoViolation = append(meta.GoViolation, map[string]any{"signature": sig, "cases": []any{map[string]string{"path_level": "Limit (required)", "operation_level": "limit", "request": "limit=5"}}, "go_observation": detail, "judgement": sig + " " + detail})
 			}
@@ -824,8 +845,47 @@ func init() {
 				}
 			}
 		}
+		var dterms []string
+		var idx, didx []int
+		for i := range cases {
+			c := &cases[i]
+			if c.Deep == nil {
+				idx = append(idx, i)
+				continue
+			}
+			o := runDeepQ(c.Deep)
+			// meta.Cases is indexed like cases: the plain cases were appended in order, deep ones follow
+			meta.Cases = append(meta.Cases, map[string]any{"input": c, "go": o})
+			didx = append(didx, len(meta.Cases)-1)
+			dterms = append(dterms, deepQCoq(c.Deep, &o))
+			kind := "deepObject/model value"
+			if c.Deep.Hostile {
+				kind = "deepObject/model hostile"
+			} else if c.Deep.Expect == nil {
+				kind = "deepObject/model absent"
+			}
+			meta.Histogram[kind]++
+			meta.Histogram[fmt.Sprintf("deepObject/model err=%d", o.Err)]++
+			key, _ := json.Marshal(c)
+			if !seen[string(key)] {
+				seen[string(key)] = true
+				meta.Distinct++
+			}
+		}
 		meta.NCases = len(cases)
-		meta.Files = writeCases(outDir, "From KV Require Import Model.Base Model.Json Model.Schema Model.Request Model.ParamCodec Spec.ParamSpec Exec.C05Exec.", "c05case", "judge", terms, meta.Shard)
+		var off1, off2 []int
+		var f2 []string
+		meta.Files, off1 = writeCasesAt(outDir, "cases", "From KV Require Import Model.Base Model.Json Model.Schema Model.Request Model.ParamCodec Spec.ParamSpec Exec.C05Exec.", "c05case", "judge", terms, meta.Shard, 0)
+		f2, off2 = writeCasesAt(outDir, "deep", "From KV Require Import Model.Base Model.Json Model.Schema Model.Request Model.ParamCodec Model.DeepObject Exec.C05Exec Exec.C05DeepExec.", "c05deep", "judge_deep", dterms, meta.Shard, len(terms))
+		meta.Files = append(meta.Files, f2...)
+		meta.Offsets = append(off1, off2...)
+		// judged-case number -> index into meta.Cases (plain cases keep their order, deep ones follow)
+		plain := make([]int, len(terms))
+		for i := range plain {
+			plain[i] = i
+		}
+		meta.IndexMap = append(plain, didx...)
+		_ = idx
 		writeMeta(outDir, meta)
 		fmt.Fprintf(os.Stderr, "C05: %d cases\n", len(cases))
 	}
